@@ -19,8 +19,17 @@ Names are lists of character codes so that everything reduces in the kernel.
 
 Not modelled: the byte sizes handed to the `PreAllocator` arena (`GetRequiredLength`'s byte
 arithmetic), the hash-bucket structure of `eventDefName` (it is a `con::arrayset`: modelled as the
-list of its keys in index order, key equality = `EventNameCompare`), `ClassDefExt` (unused by the
-engine), un-registration (`~EventDef`, `~ClassDef`).
+list of its keys in index order, key equality = `EventNameCompare`), un-registration (`~EventDef`,
+`~ClassDef`).  `ClassDefExt` (unused by the engine) is transcribed as the public API behaves
+(`applyExt` / `initClassDef` at the end of this file) but is NOT an `Op`: the `Reachable` theorems speak
+about extension-free histories, `C16_ext_*` about what an extension may touch.
+
+An `EventDef` that is MOVED (`EventDef(EventDef&&)`, `operator=(EventDef&&)`: a command table kept in a
+`std::vector` / `con::Container` that reallocates) is the same object of the model at a new address: the
+move carries every field — name / kind / number (`attributes`), the namespace (`ObjectInNamespace` base)
+and the place in `EventDef::head` (`head.Move(this, &other)`) — and leaves an unregistered shell
+(`evType_e::None`, number 0, unlinked) that never enters a table.  So a move is the identity on `Reg`; the
+harness creates part of its events that way (`event … v|c|a`) and the model answers as for `event …`.
 -/
 namespace Morfuse.Dispatch
 
@@ -424,5 +433,36 @@ def commandDelay (s : State) (c : Nat) (name : Name) : Nat × Option Outcome :=
   match getResponse s c num with
   | none => (0, none)
   | some _ => (num, some (processEvent s c num))
+
+/-! ## `ClassDefExt` (class extensions), as the public API behaves
+
+`ClassDefExt(ClassDef*, const ResponseDefClass*)` front-inserts the extension into the static list
+`ClassDefExt::list`; `ClassSystem::BuildEventResponses` calls `ClassDefExt::InitClassDef()` after every
+class's table has been built.  An extension response is identified in a `Row` by the pseudo class id
+`x` the driver gives the extension (≥ 1000000, disjoint from class ids) and its index in the extension's
+own response array. -/
+
+/-- the inner loop of `InitClassDef`: `if (r->response) lookup[ev] = r;` (a null response is skipped,
+    it does not erase) -/
+def patchExt (r : Reg) (x : Nat) : List Decl → Nat → Row → Row
+  | [], _, row => row
+  | d :: ds, i, row => patchExt r x ds (i + 1) (if d.has then row.set (evNum r d.ev) x i else row)
+
+/-- one extension applied: `lookup = ext->classDef->GetResponseLookupList(); if (lookup) …` writes into
+    the table OF THAT CLASS (`responseLookup` is per class: `BuildResponseList` allocates one for every
+    class, also for a class with an empty response list) -/
+def applyExt (s : State) (c x : Nat) (decls : List Decl) : State :=
+  match tget s.tables c with
+  | none => s
+  | some row => { s with tables := (c, patchExt s.reg x decls 0 row) :: s.tables }
+
+/-- `ClassDefExt::InitClassDef` as written: `for (const ClassDefExt* ext = list; list; list = list->next)`.
+    `ext` is never advanced and the STATIC `list` is: the extension at the head (the most recently
+    constructed one) is applied once per list element, no other extension is applied, and the list is
+    empty afterwards (a rebuild applies nothing).  `exts`: (pseudo id, class, responses), head first. -/
+def initClassDef (s : State) (exts : List (Nat × Nat × List Decl)) : State × List (Nat × Nat × List Decl) :=
+  match exts with
+  | [] => (s, [])
+  | (x, c, ds) :: _ => (exts.foldl (fun st _ => applyExt st c x ds) s, [])
 
 end Morfuse.Dispatch
